@@ -19,6 +19,8 @@ def run_check(prop, tier, seed, root):
         mod = importlib.import_module('pverif.props.%s' % prop.lower())
         ctx = Ctx(prop, tier=tier, seed=seed, root=root)
         mod.check(ctx)
+        if tier == 'thorough' and not os.environ.get('PVERIF_NO_STABILITY'):
+            stability(ctx, mod, prop, seed, root)
         return finish(ctx), ctx
     except AnalysisError as e:
         print('ANALYSIS-ERROR property=%s %s' % (prop, e))
@@ -28,6 +30,45 @@ def run_check(prop, tier, seed, root):
         print('ANALYSIS-ERROR property=%s internal: %s: %s' % (
             prop, type(e).__name__, e))
         return 2, ctx
+
+
+def stability(ctx, mod, prop, seed, root):
+    """Thorough tier: recompute the verdict on behaviour-preserving
+    rewrites of the tree (reformatted, locals renamed, branches swapped, ...)
+    and record the agreement in the evidence.  Recorded only: it never
+    changes the exit code."""
+    import shutil
+    import tempfile
+    from . import PKG
+    from .transforms import AUTO
+    base = os.path.expanduser('~/.cache')
+    os.makedirs(base, exist_ok=True)
+    want = sorted({f.key.split('|', 1)[1] for f in ctx.findings})
+    out = {}
+    for name, fn in AUTO:
+        d = tempfile.mkdtemp(prefix='verif-stability-', dir=base)
+        try:
+            shutil.copytree(os.path.join(root, PKG), os.path.join(d, PKG),
+                            ignore=shutil.ignore_patterns('tests',
+                                                          '__pycache__'))
+            shutil.copy(os.path.join(root, 'setup.cfg'), d)
+            fn(d)
+            c2 = Ctx(prop, tier='quick', seed=seed, root=d)
+            try:
+                mod.check(c2)
+                got = sorted({f.key.split('|', 1)[1] for f in c2.findings})
+                out[name] = 'same verdict' if (bool(got) == bool(want)
+                                               and len(got) == len(want)) \
+                    else 'DIFFERENT: %d vs %d findings' % (len(got),
+                                                           len(want))
+            except AnalysisError as e:
+                out[name] = 'analysis error: %s' % e
+        finally:
+            shutil.rmtree(d, ignore_errors=True)
+    ctx.extra['verdict_stability'] = out
+    agree = sum(1 for v in out.values() if v == 'same verdict')
+    print('%s verdict stability: %d/%d behaviour-preserving rewrites give '
+          'the same verdict' % (prop, agree, len(out)))
 
 
 def main(argv=None):
